@@ -15,6 +15,15 @@
 // A fifth stream logs in over TCP (server.Server + go-sql-driver) with right, wrong and missing passwords
 // and compares the outcome and CURRENT_USER() with the same model (`wire` cases).
 //
+// Further streams (own files, own random streams):
+//
+//	(hp xHOST xPATTERN)        hostpat.go: matchesHostPattern itself (exhaustive small alphabets, overlap-prone
+//	                           patterns) and `plogin`: login cases over accounts with such host patterns
+//	(hist (ACCT…) (EV…))       hist.go: one engine per history of account-changing statements (both paths:
+//	                           account-management statements and DML on mysql.user) interleaved with logins of
+//	                           returning clients through MySQLDb's mysql.AuthServer interface; whist.go: the same
+//	                           with the logins made over TCP
+//
 // Model-free oracle (real code alone): a token computed by vitess' client-side ScrambleMysqlNativePassword
 // from the right password is accepted when exactly one account can match; tokens for another password or
 // another salt, random tokens, and any response for a locked account are rejected; an account without a
@@ -396,6 +405,27 @@ func loginCase(out *hx.Out, accts []acct, enabled bool, user, host string, salt 
 	}
 }
 
+// sha2FastObs: noopCachingStorage.UserEntryWithCacheHash as accept:… | deny | needmore | crash (+ the panic text).
+func sha2FastObs(db *mysql_db.MySQLDb, user string, resp []byte, host string) (string, string) {
+	var g mysql.Getter
+	var st mysql.CacheState
+	var err error
+	p := hx.Safe(func() { g, st, err = mysql_db.VerifSha2Fast(db, user, resp, tcpAddr(host)) })
+	obs := getterObs(g, err, p)
+	if p == "" {
+		switch st {
+		case mysql.AuthNeedMoreData:
+			obs = "needmore"
+		case mysql.AuthRejected:
+			obs = "deny"
+		case mysql.AuthAccepted:
+		default:
+			obs = fmt.Sprintf("state:%d", st)
+		}
+	}
+	return obs, p
+}
+
 // ---------------------------------------------------------------------------------------------
 // wire level
 
@@ -469,7 +499,10 @@ func run(a hx.RunArgs) error {
 	defer out.Close()
 	out.Rule = "sha1: random messages of 0-200 bytes; vn: scramble check on (response, salt, stored hash) incl. every response length 0-40, tokens of the right/wrong password, bit flips, stored hashes without star / lower-case / non-hex / odd / short; " +
 		"login: 1-5 accounts (names u1/u2/anonymous, hosts localhost/%/10.0.%/h%/127.0.0.1/…, native/sha2/other plugin, locked flag, passwords incl. none, malformed auth strings) in random insertion order, " +
-		"a login from 9 client hosts with 11 kinds of response; method: HandleUser for 4 method names; fast: caching_sha2 fast path with empty/zero/other responses; wire: TCP logins through server.Server + go-sql-driver; " +
+		"a login from 9 client hosts with 11 kinds of response; method: HandleUser for 4 method names; fast: caching_sha2 fast path with empty/zero/other responses; wire: TCP logins through server.Server + go-sql-driver (incl. accounts whose host pattern surrounds the client address 127.0.0.1); " +
+		"hp: matchesHostPattern on every pattern of length <= 5 over {a,b,%} x every host of length <= 5 over {a,b}, every pattern of length <= 4 over {1,.,%,_} x hosts of length <= 3 over {1,.,_,x}, IP/host-name shaped patterns with literal text on both sides of 1-3 wildcards against instantiations, overlap merges of the segments (hosts too short for the literals to be disjoint) and one-character mutations, patterns of regexp metacharacters (non-trivial: a wildcard and >= 2 non-empty literal segments); " +
+		"plogin: logins over 1-3 accounts with such host patterns from such client hosts; " +
+		"hist: one engine per history of 3-9 account-changing statements through both paths (CREATE USER [ACCOUNT LOCK] / CREATE ROLE / ALTER USER / DROP USER / GRANT global and database level / FLUSH PRIVILEGES, and INSERT / UPDATE account_locked, authentication_string, plugin / DELETE on mysql.user) interleaved with native-password logins through MySQLDb's mysql.AuthServer interface that keep coming from the same 1-2 (user, client host) pairs with the current / a former / another password, plus a fixed corpus (non-trivial: >= 2 logins, one of them after a change); " +
 		"a login case is non-trivial when accounts are enabled, some account can match and the response is not empty"
 	r := hx.NewRand(a.Seed*7919 + 40)
 	nSha, nVn, nLogin, nMeth, nWire := 150, 3000, 8000, 2000, 80
@@ -651,22 +684,7 @@ func run(a hx.RunArgs) error {
 			}
 		} else {
 			resp := [][]byte{nil, {0}, {0, 0}, randBytes(rr, 32), {1}}[rr.Intn(5)]
-			var g mysql.Getter
-			var st mysql.CacheState
-			var err error
-			p := hx.Safe(func() { g, st, err = mysql_db.VerifSha2Fast(db, user, resp, tcpAddr(host)) })
-			obs := getterObs(g, err, p)
-			if p == "" {
-				switch st {
-				case mysql.AuthNeedMoreData:
-					obs = "needmore"
-				case mysql.AuthRejected:
-					obs = "deny"
-				case mysql.AuthAccepted:
-				default:
-					obs = fmt.Sprintf("state:%d", st)
-				}
-			}
+			obs, p := sha2FastObs(db, user, resp, host)
 			id := out.Case(hx.List("fast", b01(enabled), acctsPayload(ordered), hx.HexS(user), hx.HexS(host), hx.Hex(resp)), obs, enabled && len(candidates(accts, user, host)) > 0)
 			out.Stat("fast")
 			out.Stat("fast:" + strings.SplitN(obs, ":", 2)[0])
@@ -692,6 +710,9 @@ func run(a hx.RunArgs) error {
 	root := w.e.Ctx()
 	wusers := []struct{ name, host, pw string }{
 		{"w1", "localhost", "pw"}, {"w2", "%", "secret"}, {"w3", "localhost", ""}, {"w4", "127.0.0.1", "pw2"}, {"w5", "10.9.%", "pw"},
+		// host patterns around the client's address 127.0.0.1: w8 contains every literal piece of its pattern in
+		// order but not disjointly ("127.0." + gap + ".0.1" needs 10 characters) and must not match; w9 matches
+		{"w8", "127.0.%.0.1", "pw"}, {"w9", "127.%.0.1", "pw"},
 	}
 	for _, u := range wusers {
 		q := fmt.Sprintf("CREATE USER '%s'@'%s'", u.name, u.host)
@@ -714,23 +735,25 @@ func run(a hx.RunArgs) error {
 	ed.Close()
 	ordered := searchOrder(w.db, -1)
 	for i := 0; i < nWire; i++ {
-		name := hx.Pick(rw, []string{"w1", "w2", "w3", "w4", "w5", "w6", "w7"})
+		name := hx.Pick(rw, []string{"w1", "w2", "w3", "w4", "w5", "w6", "w7", "w8", "w9"})
 		pw := hx.Pick(rw, []string{"", "pw", "secret", "pw2", "nope"})
 		obs := w.wireLogin(name, pw)
 		id := out.Case(hx.List("wire", acctsPayload(ordered), hx.HexS(name), hx.HexS("127.0.0.1"), hx.HexS(pw)), obs, pw != "")
 		out.Stat("wire")
 		out.Stat("wire:" + strings.SplitN(obs, ":", 2)[0])
 		for _, u := range wusers {
-			if u.name == name && name != "w5" {
+			if u.name == name && name != "w5" && name != "w8" {
 				if (u.pw == pw) != strings.HasPrefix(obs, "accept:") {
 					out.OracleFail(id, "-", fmt.Sprintf("login %s with password %q (account password %q): %s", name, pw, u.pw, obs))
 				}
 			}
 		}
-		if (name == "w5" || name == "w6" || name == "w7") && obs != "deny" {
+		if (name == "w5" || name == "w6" || name == "w7" || name == "w8") && obs != "deny" {
 			out.OracleFail(id, "-", fmt.Sprintf("login %s (no matching / locked / unknown account) with password %q: %s", name, pw, obs))
 		}
 	}
+	// histories of account changes with the logins made over TCP
+	wireHistoryStream(out, w, a)
 	return nil
 }
 
@@ -865,5 +888,8 @@ func extract(a hx.ExtractArgs) error {
 		return true
 	})
 	lf.DefStringList("getUserConds", gu)
+	if err := extractMore(a, lf); err != nil {
+		return err
+	}
 	return lf.Write(a.Out)
 }
